@@ -13,6 +13,7 @@ def parseMsg (j : J) : Except String Msg := do
   else if k = "port_status" then pure (.portStatus (← j.nat "x"))
   else if k = "echo_request" then pure (.echoRequest (← j.nat "x"))
   else if k = "packet_in" then pure (.packetIn (← j.nat "x"))
+  else if k = "echo_reply" then pure (.echoReply (← j.nat "x"))
   else throw s!"unknown message {k}"
 
 def parseOp (j : J) : Except String Op := do
